@@ -1330,6 +1330,35 @@ def _r20f(chk, repo) -> None:
     chk.floor("R20f.restricted_returns", 1)
 
 
+def _r20g(chk, repo) -> None:
+    f = repo.fn(NOQA, "IgnoreMask.from_source")
+    cfg = cfg_of(f)
+    n = 0
+    for l in [l for l in walk_local(f) if isinstance(l, ast.For)]:
+        it = l.iter
+        if isinstance(it, ast.Call) and call_name(it) == "enumerate" and it.args:
+            it = it.args[0]
+        if isinstance(it, ast.Name):
+            os_ = origins(cfg, it, l)
+            it = os_[0].expr if len(os_) == 1 and os_[0].kind == "expr" else it
+        if not (isinstance(it, ast.Call) and isinstance(it.func, ast.Attribute) and it.func.attr in ("split", "splitlines", "rsplit")):
+            continue
+        n += 1
+        sep = it.args[0] if it.args else None
+        if isinstance(sep, ast.Name):
+            os_ = origins(cfg, sep, l)
+            sep = os_[0].expr if len(os_) == 1 and os_[0].kind == "expr" else sep
+        ok = it.func.attr == "split" and isinstance(sep, ast.Constant) and sep.value == "\n"
+        chk.require(
+            ok, "R20g", it,
+            f"from_source numbers the lines of `{short(it, 40)}`: only a split on the literal newline counts lines the way positions are counted elsewhere; "
+            "with splitlines() a form feed or U+2028 earlier in the file shifts every later directive by one line, so a `noqa` on the error's own line no longer hides it",
+            detail="from_source: lines are the pieces of a split on the newline literal",
+        )
+    chk.count("R20g.line_loops", n)
+    chk.floor("R20g.line_loops", 1)
+
+
 def run(chk) -> None:
     repo = chk.repo
     chk.rule("R20a", "every IgnoreMask construction outside noqa.py is reachable only when 'not disable_noqa or disable_noqa_except' is known; a LintedFile stores None or such a mask")
@@ -1345,6 +1374,8 @@ def run(chk) -> None:
     _r20d_e(chk, repo)
     chk.rule("R20f", "allowed_rule_ref_map restricts the very map that was given the special codes PRS/LXR/TMP: the returned map is built by iterating the object those keys were stored into (or an alias of it)")
     _r20f(chk, repo)
+    chk.rule("R20g", "when directives are read from the raw source (no tree), lines are counted as everywhere else: IgnoreMask.from_source enumerates `<source>.split('\\n')`, never splitlines() (which also breaks at \\f, \\v, \\x1c-\\x1e, \\x85, U+2028/9 and would number every later directive one line too high)")
+    _r20g(chk, repo)
     chk.note("Partial claim: wiring, gating, sibling agreement and marking of the noqa machinery. The algebra over line numbers, ranges and rule sets (which directive covers which line) is value-level and not decided.")
 
 
@@ -1353,6 +1384,18 @@ from ..selftest import Variant  # noqa: E402
 CMDS = "src/sqlfluff/cli/commands.py"
 
 VARIANTS: List[Variant] = [
+    Variant(
+        "source-fallback-counts-lines-with-splitlines", NOQA,
+        '        for idx, line in enumerate(source.split("\\n")):\n',
+        "        for idx, line in enumerate(source.splitlines()):\n",
+        "R20g", "from_source", "seeded C20-5",
+    ),
+    Variant(
+        "quiet-source-fallback-lines-through-a-local", NOQA,
+        '        for idx, line in enumerate(source.split("\\n")):\n',
+        '        newline = "\\n"\n        source_lines = source.split(newline)\n        for idx, line in enumerate(source_lines):\n',
+        "QUIET", None, "R20g: separator and line list through locals",
+    ),
     Variant(
         "restricted-map-built-from-the-map-without-special-codes", LINTER,
         "        output_map = reference_map\n        # Add the special rules",
